@@ -442,7 +442,7 @@ def fix_suggestion(d):
     """Verus prints some suggested declarations in a form it does not itself accept"""
     d = re.sub(r'\b(?:std|core|alloc)::slice::<impl \[T\]>::', '<[T]>::', d)
     d = re.sub(r'\b(?:std|core|alloc)::str::<impl str>::', 'str::', d)
-    d = re.sub(r'\b(?:std|core|alloc)::\w+::<impl (\w+)>::', r'\1::', d)
+    d = re.sub(r'\b(?:std|core|alloc)(?:::\w+)+::<impl (\w+)>::', r'\1::', d)
     d = re.sub(r'std::ops::FnMut\(([^)]*?),?\) \+ std::ops::FnOnce\([^)]*\)', r'std::ops::FnMut(\1)', d)
     d = re.sub(r'std::ops::Fn\(([^)]*?),?\) \+ std::ops::FnMut\([^)]*\) \+ std::ops::FnOnce\([^)]*\)', r'std::ops::Fn(\1)', d)
     d = re.sub(r',\s*;', ';', d)
